@@ -252,6 +252,11 @@ class Driver:
         self.last_sync_limit = (limit or self.SYNC_LIMIT) + (w.daemon.height + 1) * 8 * lat
         return self.last_sync_limit
 
+    def hazard_active(self):
+        """True once this run has passed the call site of an open known finding of its own family (then
+        differences are judged by that family's property only, where the finding is filed)."""
+        return getattr(self, 'hazard_rows_above', None) is not None or bool(getattr(self, 'half_undone', None))
+
     def disarm(self):
         """No daemon-side trigger or slow reply survives into the fault-free tail."""
         self.w.dnet.rpc_triggers.clear()
@@ -339,6 +344,10 @@ class Driver:
                 # in this family every difference from a clean index is a failure of the property
                 # whose scenario it is (reorg, crash, shutdown ...)
                 self.violate(self.ATTRIBUTE_TO, m.clause, m.detail, m.keys)
+                if m.prop != self.ATTRIBUTE_TO and m.prop in ('C01', 'C02') and not self.hazard_active():
+                    # ... and of the property the observable belongs to (counted by that property's check when
+                    # it runs this family)
+                    self.violate(m.prop, f'{self.case["family"]}.{m.clause}', m.detail, m.keys)
             elif m.prop in props:
                 self.violate(m.prop, m.clause, m.detail, m.keys)
             else:
